@@ -154,6 +154,15 @@ def _std_transfer(I, fr, t, c, pth):
                 return True
         return False
 
+    # ------------------------------------------------------------------ byte representations of known integers
+    if name in ('to_be_bytes', 'to_le_bytes') and '::num::<impl u' in d and len(args) == 1:
+        v_ = as_int(fr.operand(args[0]))
+        bits_ = {'u16': 16, 'u32': 32, 'u64': 64, 'usize': 64, 'u8': 8, 'u128': 128}.get(d.split('<impl ')[1].split('>')[0])
+        if v_ is not None and bits_:
+            bs = [Int((v_ >> (8 * k_)) & 0xff, 8) for k_ in range(bits_ // 8)]
+            fr.storev(dest, Agg(bs if name == 'to_le_bytes' else list(reversed(bs))))
+            return True
+        return False
     # ------------------------------------------------------------------ mem::replace / mem::swap
     if d.startswith('std::mem::replace') and len(args) == 2:
         old_ = fr.deref_operand(args[0])
